@@ -102,7 +102,7 @@ fn gen_case(rng: &mut Rng) -> Case {
     }
     sc.probe = rng.chance(1, 3);
     let mut c = Case::of(sc);
-    c.mode = format!("v{}{}{}", u8::from(rng.bool()), u8::from(rng.bool()), u8::from(rng.chance(1, 3)));
+    c.mode = format!("v{}{}{}{}", u8::from(rng.bool()), u8::from(rng.bool()), u8::from(rng.chance(1, 3)), if rng.chance(1, 3) { rng.range(1, 2) } else { 0 });
     c
 }
 
@@ -216,6 +216,11 @@ impl Property for C17 {
             builder_free_early: case.mode.as_bytes().get(1) == Some(&b'1'),
             strings_late: case.mode.as_bytes().get(2) == Some(&b'1'),
             ignore_setter_errors: case.mode.as_bytes().get(3) == Some(&b'1'),
+            rebuild: match case.mode.as_bytes().get(4) {
+                Some(b'1') => 1,
+                Some(b'2') => 2,
+                _ => 0,
+            },
         };
         let rust = driver::run(sc);
         let c = capi::run(sc, v);
